@@ -24,7 +24,7 @@ def as_tree(h):
 
 
 def walk(t, hidden=False):
-    """every field of the criterion: [tref, name, sits-in-an-operand-nodes_-does-not-visit]"""
+    """every field of the criterion: [tref, name, sits-in-an-operand-nodes_-does-not-visit (never, since d11365b)]"""
     k = t[0]
     if k == "f":
         return [[t[1], t[2], hidden]]
@@ -43,12 +43,13 @@ def walk(t, hidden=False):
     if k == "case":
         out = [x for w, th in t[1] for x in walk(w, hidden) + walk(th, hidden)]
         return out + (walk(t[2], hidden) if t[2] is not None else [])
+    # since d11365b nodes_ descends into these operands as well: nothing is hidden from the guards any more
     if k in ("neg", "attz"):
-        return walk(t[1], True)
+        return walk(t[1], hidden)
     if k == "over":
-        return [x for a in t[1] for x in walk(a, hidden)] + [x for a in t[2] + t[3] for x in walk(a, True)]
+        return [x for a in t[1] + t[2] + t[3] for x in walk(a, hidden)]
     if k == "filter":
-        return [x for a in t[1] for x in walk(a, hidden)] + walk(t[2], True)
+        return [x for a in t[1] for x in walk(a, hidden)] + walk(t[2], hidden)
     raise ValueError(t)
 
 
